@@ -106,17 +106,16 @@ EXPORT rsize_t _strnlen_s_chk(const char *str, rsize_t smax, size_t strbos)
         }
     }
 
+    /* Dont touch past strbos */
+    if (strbos != BOS_UNKNOWN && smax > strbos) {
+        smax = strbos;
+    }
+
     count = 0;
-    while (*str && smax) {
+    while (smax && *str) {
         count++;
         smax--;
         str++;
-        /* Dont touch past strbos */
-        if (strbos != BOS_UNKNOWN) {
-            strbos--;
-            if (unlikely(!strbos))
-                return count;
-        }
     }
 
     return count;
